@@ -228,6 +228,13 @@ def corr_hnp(rep, rng, tier):
       d, k, r, s, e = make_sig(rng, c, digest, mode)
       z = e % n
       variants = [('canonical', r, s, z)]
+      # the Lean-side signer specification (Model.signS, theorems in Props/C09Sign.lean) against
+      # the independent reference signer above: same s for the same (r, e, d, k)
+      b.add('ecdsa.signs %s %s %s %s %s' % (H(n), H(r), H(e), H(d), H(k)),
+            call(H, lambda s=s: s), tag='signS:' + mode)
+      if i == 0:
+        b.add('ecdsa.signs %s %s %s %s %s' % (H(n), H(r), H(e), H(d), H(n * 3)),
+              call(H, lambda n=n: int(gmpy2.invert(gmpy2.mpz(0), n))), tag='signS:k=0 mod n')
       variants.append(('z-unreduced', r, s, e))
       variants.append(('ge-n', r + n * rng.randrange(0, 3), s + n * rng.randrange(1, 3),
                        z + n * rng.randrange(0, 3)))
